@@ -33,6 +33,9 @@ type c13Case struct {
 	// Enc: every listing request carries encoding-type=url (what boto3 sends); an answer that
 	// declares EncodingType=url is decoded the way a client does
 	Enc bool `json:"enc,omitempty"`
+	// Mid: the listing is also taken, and judged, after every step of the history (a listing answers
+	// for the moment it is taken, whatever was listed before)
+	Mid bool `json:"mid,omitempty"`
 }
 
 // c13EncodeURL is set for the duration of one c13Exec (the checks run one at a time).
@@ -395,6 +398,14 @@ func c13Exec(cs c13Case) (ds []disc, info map[string]int) {
 			}
 			return sd, info
 		}
+		if cs.Mid {
+			if md, _ := c13CheckFull(r, cs.Prefix, cs.Delim); len(md) > 0 {
+				for j := range md {
+					md[j].Detail = fmt.Sprintf("listing taken after history step %d: %s", i, md[j].Detail)
+				}
+				return md, info
+			}
+		}
 	}
 	mb := r.M.Buckets["bk0"]
 	for _, mk := range mb.Keys {
@@ -526,7 +537,7 @@ func c13Run(t *testing.T, c *evid.Collector) {
 		for _, h := range hs {
 			for _, pd := range [][2]string{{"", ""}, {"", "/"}, {"b/", "/"}, {"a", ""}, {"b", ""}} {
 				for mk := 0; mk <= 9; mk++ {
-					cs := c13Case{Ops: h, Prefix: pd[0], Delim: pd[1], MaxKeys: mk, MarkerIdx: mk - 1}
+					cs := c13Case{Ops: h, Prefix: pd[0], Delim: pd[1], MaxKeys: mk, MarkerIdx: mk - 1, Mid: mk == 1}
 					ds, info := c13Exec(cs)
 					record(cs, ds, info, "fixed")
 				}
@@ -543,7 +554,7 @@ func c13Run(t *testing.T, c *evid.Collector) {
 			ops = append(ops, c13GenOp(rt))
 		}
 		pd := rapid.SampledFrom([][2]string{{"", ""}, {"", ""}, {"", "/"}, {"", "/"}, {"b/", "/"}, {"b", ""}, {"a", ""}, {"b", "/"}, {"c", "/"}, {"b/x", ""}}).Draw(rt, "pd")
-		base := c13Case{Ops: ops, Prefix: pd[0], Delim: pd[1], MarkerIdx: -1, Enc: rapid.IntRange(0, 2).Draw(rt, "enc") == 0}
+		base := c13Case{Ops: ops, Prefix: pd[0], Delim: pd[1], MarkerIdx: -1, Enc: rapid.IntRange(0, 2).Draw(rt, "enc") == 0, Mid: rapid.IntRange(0, 2).Draw(rt, "mid") == 0}
 		ds, info := c13Exec(base)
 		if record(base, ds, info, "random") {
 			rt.Fatalf("C13 violated: %v", ds)
